@@ -16,8 +16,11 @@ def run(ctx):
     H = driver.Harness
     f = dict(NB); f.update(V2C); f['pkg/northbound/gnmi/v2/zz_verif_c03.go'] = 'c03/zz_verif_c03.go'
     sets = [1, 2] if ctx.tier == 'quick' else [1, 2, 3]
-    hs = [H('VerifC03History', 'pkg/northbound/gnmi/v2', f, unwind=16, opts={'params': {'sets': n}, 'cuts': {BUILDER_GET: 'atomix-map-by-name', PROTO_CODEC: 'noop'}},
-            timeout_ms=300000 if ctx.tier == 'quick' else 1800000) for n in sets]
+    # Go leaves the iteration order of a map unspecified: every history is executed with the map ranges of the code
+    # under test running forwards and backwards (a native replay is repeated until the random order reproduces)
+    hs = [H('VerifC03History', 'pkg/northbound/gnmi/v2', f, unwind=16,
+            opts={'params': {'sets': n, 'onlycombined': mo}, 'cuts': {BUILDER_GET: 'atomix-map-by-name', PROTO_CODEC: 'noop'}, 'maporder': mo},
+            timeout_ms=300000 if ctx.tier == 'quick' else 1800000, replay_attempts=16) for n in sets for mo in (0, 1)]
     driver.check_harnesses(ctx, hs)
     driver.write_evidence(ctx, 'model_checking', 'data path Set -> commit -> real configuration store -> Get vs reference gNMI state machine',
                           {'sets': sets}, [])
